@@ -111,6 +111,14 @@ def _create_files(  # noqa: C901, PLR0912, PLR0913
         if links is None and isinstance(storage_obj, ObjectStorage):
             links = storage_obj.odb.cache_types
 
+        failed_paths: set[str] = set()
+        on_error = None
+        if onerror is not None:
+
+            def on_error(src_path, dest_path, exc, _failed=failed_paths):
+                _failed.add(dest_path)
+                onerror(src_path, dest_path, exc)
+
         transfer(
             src_fs,
             list(src_paths),
@@ -119,7 +127,7 @@ def _create_files(  # noqa: C901, PLR0912, PLR0913
             callback=callback,
             batch_size=jobs,
             links=links,
-            on_error=onerror,
+            on_error=on_error,
         )
 
         _check_versioning(dest_paths, fs)
@@ -127,7 +135,8 @@ def _create_files(  # noqa: C901, PLR0912, PLR0913
         if state and isinstance(fs, LocalFileSystem):
             _infos: list[tuple[str, HashInfo, dict]] = []
             for entry, _, dest_path in args:
-                if not entry.hash_info:
+                # a file that could not be created is not the entry's content
+                if not entry.hash_info or dest_path in failed_paths:
                     continue
                 try:
                     _infos.append((dest_path, entry.hash_info, fs.info(dest_path)))
